@@ -333,17 +333,16 @@ Definition orc (s : Z) : roracle := mkROracle
   (fun id ctx => Z.even ((id * 5 + s + Z.of_nat (list_sum ctx)) / 2)).
 Definition orc2 : roracle := mkROracle (fun _ _ => 2%nat) (fun _ _ => true).
 Definition orc3 : roracle := mkROracle (fun _ _ => 3%nat) (fun _ _ => false).
-(* first race over the sampled oracles: [a; b; class] or [] *)
+(* races over the sampled oracles; the one with the smallest class (0 = inside the proved class)
+   is reported: [a; b; class] or [] *)
 Definition l2_eval (c : list opinfo * list rstmt) : list Z :=
   let '(flat, t) := c in
-  (fix go (os : list roracle) : list Z :=
-     match os with
-     | [] => []
-     | o :: r => match first_race (rrunl o t []) with
-                 | Some (x, y) => let a := hd 0 (o_name x) in let b := hd 0 (o_name y) in [a; b; classify_pair flat a b]
-                 | None => go r
-                 end
-     end) [orc2; orc3; orc 0; orc 1; orc 2; orc 5].
+  let races := flat_map (fun o => all_races (rrunl o t [])) [orc2; orc3; orc 0; orc 1; orc 2; orc 5] in
+  let cl := map (fun xy => let a := hd 0 (o_name (fst xy)) in let b := hd 0 (o_name (snd xy)) in (classify_pair flat a b, a, b)) races in
+  match find (fun r => fst (fst r) =? 0) cl with
+  | Some (c0, a, b) => [a; b; c0]
+  | None => match cl with (c0, a, b) :: _ => [a; b; c0] | [] => [] end
+  end.
 """
 KLASS = {0: None, 1: "alias_via_view", 2: "cross_level", 3: "ctl_between"}
 
